@@ -134,6 +134,18 @@ func zzConsistent(s *Schema) string {
 		if !zzValidName(name) {
 			return "illegal type name in type map: " + name
 		}
+		if len(name) >= 2 && name[0] == '_' && name[1] == '_' {
+			// names beginning with __ are reserved for the introspection system
+			builtin := false
+			for _, n := range []string{"__Schema", "__Type", "__Field", "__InputValue", "__EnumValue", "__Directive", "__TypeKind", "__DirectiveLocation"} {
+				if n == name {
+					builtin = true
+				}
+			}
+			if !builtin {
+				return "reserved type name in type map: " + name
+			}
+		}
 	}
 	for _, n := range []string{"__Schema", "__Type", "__Field", "__InputValue", "__EnumValue", "__Directive", "__TypeKind", "__DirectiveLocation", "String", "Boolean"} {
 		if tm[n] == nil {
@@ -259,7 +271,12 @@ func zzConsistent(s *Schema) string {
 			if len(x.Types()) == 0 {
 				return "union " + name + " has no members"
 			}
-			for _, m := range x.Types() {
+			for mi, m := range x.Types() {
+				for mj, m2 := range x.Types() {
+					if mi < mj && m == m2 {
+						return "union " + name + " lists a member twice"
+					}
+				}
 				if m == nil || tm[m.Name()] != Type(m) {
 					return "union member not in the type map"
 				}
@@ -302,16 +319,20 @@ func zzConsistent(s *Schema) string {
 // ZZ_C11_config: NewSchema on a configuration with one injected malformation
 // (or none) returns an error or a consistent schema, and never panics.
 func ZZ_C11_config() {
-	defect := zzChoice("defect", 24)
+	defect := zzChoice("defect", 28)
 	thunks := zzChoice("thunks", 2) == 1
+	// route 0: everything supplied to NewSchema; 1..5: the object (directly, via a
+	// union, inside wrappers) or nil is appended to a schema built without it
+	route := zzChoice("route", 7)
 	name2 := func(tag string) string { return zzString(tag, 2) } // arbitrary 2-byte name
 	color := NewEnum(EnumConfig{Name: "Color", Values: EnumValueConfigMap{"RED": &EnumValueConfig{Value: 0}}})
 	in := NewInputObject(InputObjectConfig{Name: "In", Fields: InputObjectConfigFieldMap{"a": &InputObjectFieldConfig{Type: Int}}})
-	nodeFields := Fields{"id": &Field{Type: ID, Args: FieldConfigArgument{"x": &ArgumentConfig{Type: Int}}}, "self": &Field{Type: String}}
+	nodeFields := Fields{"id": &Field{Type: ID, Args: FieldConfigArgument{"x": &ArgumentConfig{Type: Int}}},
+		"self": &Field{Type: String, Args: FieldConfigArgument{"x": &ArgumentConfig{Type: Int}, "y": &ArgumentConfig{Type: NewNonNull(Int)}}}}
 	node := NewInterface(InterfaceConfig{Name: "Node", Fields: nodeFields, ResolveType: func(p ResolveTypeParams) *Object { return nil }})
 	objFields := Fields{
 		"id":   &Field{Type: NewNonNull(ID), Args: FieldConfigArgument{"x": &ArgumentConfig{Type: Int}}},
-		"self": &Field{Type: String},
+		"self": &Field{Type: String, Args: FieldConfigArgument{"x": &ArgumentConfig{Type: Int}, "y": &ArgumentConfig{Type: NewNonNull(Int)}}},
 		"c":    &Field{Type: color, Args: FieldConfigArgument{"in": &ArgumentConfig{Type: in}}},
 	}
 	qFields := Fields{"node": &Field{Type: node}}
@@ -364,17 +385,34 @@ func ZZ_C11_config() {
 		objFields["c"] = &Field{Type: color}
 	case 23:
 		objFields["l"] = &Field{Type: NewList(nil)}
+	case 26:
+		objName = "__Obj" // names beginning with __ are reserved for introspection
+	case 27:
+		in = NewInputObject(InputObjectConfig{Name: "__In", Fields: InputObjectConfigFieldMap{"a": &InputObjectFieldConfig{Type: Int}}})
+		objFields["c"] = &Field{Type: color, Args: FieldConfigArgument{"in": &ArgumentConfig{Type: in}}}
 	}
 	ocfg := ObjectConfig{Name: objName}
 	if thunks {
 		ocfg.Fields = FieldsThunk(func() Fields { return objFields })
-		ocfg.Interfaces = InterfacesThunk(func() []*Interface { return []*Interface{node} })
+		ocfg.Interfaces = InterfacesThunk(func() []*Interface {
+			if defect == 24 {
+				return []*Interface{node, node} // the same interface declared twice
+			}
+			return []*Interface{node}
+		})
 	} else {
 		ocfg.Fields = objFields
 		ocfg.Interfaces = []*Interface{node}
+		if defect == 24 {
+			ocfg.Interfaces = []*Interface{node, node}
+		}
 	}
 	var schema Schema
 	var err error
+	// whether an implementation error is found must not depend on the order in
+	// which the field maps are walked: for the interface-related defects the
+	// construction runs under every single-range rotation
+	orderMatters := route == 0 && !thunks && (defect == 0 || (defect >= 7 && defect <= 11) || defect == 24)
 	zzGuard("schema construction", func() {
 		obj := NewObject(ocfg)
 		switch defect {
@@ -382,8 +420,63 @@ func ZZ_C11_config() {
 			uni = NewUnion(UnionConfig{Name: "U", Types: []*Object{}, ResolveType: func(p ResolveTypeParams) *Object { return nil }})
 		case 6:
 			uni = NewUnion(UnionConfig{Name: "U", Types: []*Object{obj, nil}, ResolveType: func(p ResolveTypeParams) *Object { return nil }})
+		case 25: // the same member twice
+			uni = NewUnion(UnionConfig{Name: "U", Types: []*Object{obj, obj}, ResolveType: func(p ResolveTypeParams) *Object { return nil }})
 		default:
 			uni = NewUnion(UnionConfig{Name: "U", Types: []*Object{obj}, ResolveType: func(p ResolveTypeParams) *Object { return nil }})
+		}
+		if route != 0 {
+			zzAssume(defect != 16)
+			q0 := NewObject(ObjectConfig{Name: "Query", Fields: qFields})
+			var x Type
+			switch route {
+			case 1:
+				x = obj
+			case 2:
+				x = uni
+			case 3:
+				x = NewList(obj)
+			case 4:
+				x = NewNonNull(NewList(uni))
+			case 5:
+				x = nil
+			case 6: // nil among the types given up front
+				s6, e6 := NewSchema(SchemaConfig{Query: q0, Types: []Type{obj, nil}})
+				if e6 == nil {
+					zzAssert(zzConsistent(&s6) == "", "NewSchema accepted an inconsistent schema: "+zzConsistent(&s6))
+					zzCover("accepted")
+				} else {
+					zzCover("rejected")
+				}
+				return
+			}
+			base, berr := NewSchema(SchemaConfig{Query: q0})
+			zzAssert(berr == nil, "the base schema (Query and an interface without implementers) was rejected")
+			aerr := base.AppendType(x)
+			if route == 5 {
+				// an error or a no-op, but no panic and no damage
+				zzAssert(zzConsistent(&base) == "", "AppendType(nil) left the schema inconsistent: "+zzConsistent(&base))
+				zzCover("rejected")
+				return
+			}
+			upfront, uerr := NewSchema(SchemaConfig{Query: q0, Types: []Type{x}})
+			zzAssert((aerr == nil) == (uerr == nil), "AppendType and SchemaConfig.Types disagree on whether the type is acceptable")
+			err = aerr
+			if aerr != nil {
+				zzAssert(zzConsistent(&base) == "", "a failed AppendType left the schema inconsistent: "+zzConsistent(&base))
+				zzCover("rejected")
+				return
+			}
+			if msg := zzConsistent(&base); msg != "" {
+				zzFail("AppendType produced an inconsistent schema: " + msg)
+			}
+			zzAssert(len(base.TypeMap()) == len(upfront.TypeMap()), "appending a type gives a different type map than supplying it up front")
+			for name := range upfront.TypeMap() {
+				zzAssert(base.TypeMap()[name] != nil, "appending a type gives a different type map than supplying it up front")
+			}
+			zzAssert(len(base.PossibleTypes(node)) == len(upfront.PossibleTypes(node)), "appending a type gives different possible types than supplying it up front")
+			zzCover("accepted")
+			return
 		}
 		qFields["u"] = &Field{Type: uni}
 		q := NewObject(ObjectConfig{Name: "Query", Fields: qFields})
@@ -391,7 +484,11 @@ func ZZ_C11_config() {
 		if defect == 16 {
 			schemaCfg.Query = nil
 		}
+		if orderMatters {
+			zzMapOrder(true, zzParam("D", 1))
+		}
 		schema, err = NewSchema(schemaCfg)
+		zzMapOrder(false, 0)
 		if err == nil {
 			msg := zzConsistent(&schema)
 			if msg != "" {
